@@ -328,6 +328,23 @@ def run(ctx):
               "port-number is not integer in 0..65535: " + detail,
               loc=m.rel(mod.path))
 
+    from rules.common import crosscheck_many
+    crosscheck_many(ctx, "C09.R4", [
+        (DT + ".RegularExpressionConversion.__init__", "regex_init",
+         DT + ".RegularExpressionConversion",
+         "pattern compiled without flags"),
+        (DT + ".RangeCheckedConversion.__init__", "range_init",
+         DT + ".RangeCheckedConversion", "bounds kept as given"),
+        (DT + ".InetAddress.__init__", "inet_init", DT + ".InetAddress",
+         "default host kept as given"),
+        (DT + ".integer", "integer", None, "int()"),
+        (DT + ".float_conversion", "float_conversion", None, "float()"),
+        (DT + ".null_conversion", "null_conversion", None, "identity"),
+        (DT + ".string_list", "string_list", None, "split on whitespace"),
+        (DT + ".Registry.register", "registry_register", DT + ".Registry",
+         "no shadowing of stock or registered names"),
+    ])
+
     # ------------------------------------------------------------------ R5
     fn = m.fn(DT + ".SuffixMultiplier.__call__")
     r = X.compare(P, fn, X.spec_function(m, "ref_datatypes.py", "suffix_call",
